@@ -4,7 +4,12 @@ proof : Properties/C24.v (escape is clean; tojson replace chain leaves no metach
         round trip over the JSON string-literal model; xmlattr shape and key rejection; urlize
         output shape for every behaviour of the URL / e-mail matchers; rel/target escaped;
         forceescape; indent escapes a plain width)
-tie   : K-rt  extracted Model.FiltHtml (escape, replace4, do_xmlattr, indent/replace/join rows with
+tie   : T5 translator: gen/filt_translate_html.py turns the current source of htmlsafe_json_dumps (the
+        replace chain), do_forceescape, do_xmlattr and do_indent into terms of the deep embedding
+        Lib/PyHtml (tagged strings with MarkupSafe's operator semantics); Gen_filt_tojson / _forceescape /
+        _xmlattr / _indent prove  interpreted source term = replace4 / do_forceescape / do_xmlattr /
+        do_indent + indent_markup  for all inputs;
+        K-rt  extracted Model.FiltHtml (escape, replace4, do_xmlattr, indent/replace/join rows with
         Markup input) == MarkupSafe / htmlsafe_json_dumps / the real filters on adversarial
         strings and nested JSON-like values; json.dumps output is checked against the literal
         grammar the round-trip theorem assumes.
@@ -142,6 +147,24 @@ def run(ctx):
         "MarkupSafe's Markup methods (+, %, join, replace, slicing) escape plain operands (modelled for indent / replace / join, compared behaviourally)",
     ]
     ctx.proof("C24")
+    # T5: the current source of the HTML-producing cores as Lib/PyHtml terms = the model functions
+    import os
+    import sys
+    sys.path.insert(0, os.path.join(lib.ROOT, "gen"))
+    import filt_translate_html as fth
+    for which, n in (("tojson", 1), ("forceescape", 1), ("xmlattr", 3), ("indent", 6), ("urlize", 3)):
+        name = "Gen_filt_" + which
+        try:
+            vtext = fth.EMIT[which](lib.SRC)
+        except fth.Untranslatable as e:
+            ctx.obligations += 1
+            ctx.obligation_names.append(name + " (regenerated)")
+            ctx.broken.append(f"translator gen/filt_translate_html.py: the source of {which} left the translatable "
+                              f"vocabulary or the shape the equation is stated for: {e}")
+            continue
+        ok, out = ctx.coq_obligation(name, vtext, n_obligations=n)
+        if ok:
+            ctx.trusted.append(f"{name} (source term = model function, all inputs): " + " ".join(out.split()))
     env = jinja2.Environment()
     aenv = jinja2.Environment(autoescape=True)
     penv = jinja2.Environment(autoescape=True)
